@@ -586,3 +586,73 @@ def import_rules(res, prog, ctx, rule, pack, rules, what, floor, key_filter=None
         if not bad:
             res.discharged += 1
     res.rule(rule, n, floor, "%s (imported from %s: %s)" % (what, pack, ", ".join(rules)))
+
+
+def stale_index_stores(prog, owner, buf_field):
+    """an index into `self.<buf_field>` obtained from a probe (a call of a method of `owner`) must be used before the buffer is
+    reallocated: yields (fn, store_block, grower_callee) for every indexed store into the buffer that can be reached from a call
+    which (transitively) replaces the whole buffer, itself reached from the call that produced the index."""
+    whole = set()
+    for f in prog.fns.values():
+        if f.promoted:
+            continue
+        for (ff, b, kind, place, rv, span, adt, fld) in sym.field_stores(prog, adt=owner, field=buf_field, fns=[f]):
+            if kind == "assign":
+                whole.add(f.id)
+    memo = {}
+
+    def reallocates(tgt):
+        if tgt not in memo:
+            memo[tgt] = tgt in whole or any(g.id in whole for g in reach_from(prog, [tgt]))
+        return memo[tgt]
+    for f in [x for x in prog.fns.values() if not x.promoted and x.owner == owner and x.argc >= 1 and x.local_ty(1).startswith("&mut")]:
+        stores = list(buffer_stores(prog, f, field=buf_field))
+        if not stores:
+            continue
+        s_ = Sym(prog, f, ifconv=False)
+        growers = [(b, site["callee"]) for b, site in f.calls() if site.get("callee") in prog.fns and prog.fns[site["callee"]].owner == owner and reallocates(site["callee"])]
+        probes = [b for b, site in f.calls() if site.get("callee") in prog.fns and prog.fns[site["callee"]].owner == owner and not reallocates(site["callee"])
+                  and prog.fns[site["callee"]].local_ty(0) not in ("()", "bool")]
+        for (sb, base, ie, val, span, _s) in stores:
+            idx_calls = [b for b in probes if any(t[0] == "call" for t in sym.walk(ie))] if probes else []
+            if not idx_calls:
+                continue
+            for gb, gcal in growers:
+                if gb == sb:
+                    continue
+                if any(s_._reaches(pb, gb) for pb in idx_calls) and s_._reaches(gb, sb) and not any(s_._reaches(gb, pb) and s_._reaches(pb, sb) for pb in idx_calls):
+                    yield f, sb, gcal
+
+
+def scalar_without_buffer(prog, owner, buf_field, scalar_field):
+    """the reverse of paired_writes: a `&mut self` method that stores `scalar_field` changes `buf_field` on the same path (before
+    or after; a loop over the buffer counts as a change even if it may run zero times).  yields (fn, block) of scalar stores that
+    can be reached and left without the buffer having been touched."""
+    for f in [x for x in prog.fns.values() if not x.promoted and x.owner == owner and x.argc >= 1 and x.local_ty(1).startswith("&mut")]:
+        A = set(buffer_mutations(f, buf_field))
+        B = set(b for (ff, b, kind, place, rv, span, adt, fld) in sym.field_stores(prog, adt=owner, field=scalar_field, fns=[f]) if kind in ("assign", "call"))
+        if not B or not A:
+            continue
+        s_ = Sym(prog, f, ifconv=False)
+        ext = set(A)
+        for h, body in s_.loops():
+            if body & A:
+                ext.add(h)
+        for b in sorted(B):
+            if b in ext:
+                continue
+            # entry -> b avoiding ext ?
+            seen, st = set(), [0]
+            before_avoid = False
+            while st:
+                x = st.pop()
+                if x in seen or x in ext:
+                    continue
+                seen.add(x)
+                if x == b:
+                    before_avoid = True
+                    break
+                st.extend(y for y in f.succs(x) if not f.blocks[y].cleanup)
+            after_avoid = any(s_.reaches_exit_avoiding(sx, ext) for sx in f.succs(b) if not f.blocks[sx].cleanup)
+            if before_avoid and after_avoid:
+                yield f, b
